@@ -4,4 +4,7 @@ TG == {1, 2, 3, 4}
 TGCtx == [g \in TG |-> g]
 TG3 == {1, 2, 3}
 TG3Ctx == [g \in TG3 |-> g]
+\* goroutine 1 evaluates a non-empty list; even-numbered ones an empty list (kinds fixed by the driver)
+TG3Kind == [g \in TG3 |-> IF g = 1 THEN "full" ELSE "empty"]
+TGKind == [g \in TG |-> IF g % 2 = 1 THEN "full" ELSE "empty"]
 =============================================================================
